@@ -21,6 +21,7 @@ EqualSpacesEqualMembers ==
      /\ S!FlatSize(Sp) = S!FlatSize(U.spaces[j])
      /\ \A p \in 1..Len(U.probes) : U.probes[p].s = i => S!Contains(Sp, U.probes[p].v) = S!Contains(U.spaces[j], U.probes[p].v)
 MembersFlattenToFlatSize == \A p \in Members : Len(S!Flatten(U.probes[p].v)) = S!FlatSize(Sp)
+FlattenInSpaceOrderAgrees == \A p \in Members : S!Shaped(Sp, U.probes[p].v) /\ S!FlattenIn(Sp, U.probes[p].v) = S!Flatten(U.probes[p].v)
 FlattenInjectiveOnMembers == \A p, q \in Members : S!Flatten(U.probes[p].v) = S!Flatten(U.probes[q].v) => U.probes[p].v = U.probes[q].v
 SomeMemberSomeNonMember == Members # {} /\ \E p \in 1..Len(U.probes) : U.probes[p].s = i /\ ~S!Contains(Sp, U.probes[p].v)
 =============================================================================
